@@ -188,7 +188,8 @@ impl EditState {
     }
 
     pub fn move_layer(&mut self, to: Position) -> EngineResult<()> {
-        let i = self.current_layer;
+        // the stored index can point behind the last layer after layers were removed
+        let i = self.get_current_layer()?;
         let Some(cur_layer) = self.get_cur_layer_mut() else {
             return Ok(());
         };
@@ -216,7 +217,11 @@ impl EditState {
     /// This function will return an error if .
     pub fn stamp_layer_down(&mut self) -> EngineResult<()> {
         let _undo = self.begin_atomic_undo(fl!(crate::LANGUAGE_LOADER, "undo-stamp-down"));
-        let layer_idx = self.current_layer;
+        let layer_idx = self.get_current_layer()?;
+        if layer_idx == 0 {
+            // there is nothing below the bottom layer
+            return Err(super::EditorError::CurrentLayerInvalid.into());
+        }
         let layer = if let Some(layer) = self.get_cur_layer() {
             layer.clone()
         } else {
@@ -247,7 +252,7 @@ impl EditState {
     }
 
     pub fn rotate_layer(&mut self) -> EngineResult<()> {
-        let current_layer = self.current_layer;
+        let current_layer = self.get_current_layer()?;
         if let Some(layer) = self.get_buffer_mut().layers.get_mut(current_layer) {
             let size = layer.get_size();
             let mut new_layer = Layer::new("", (size.height, size.width));
@@ -276,7 +281,7 @@ impl EditState {
     /// This function will return an error if .
     pub fn make_layer_transparent(&mut self) -> EngineResult<()> {
         let _undo = self.begin_atomic_undo(fl!(crate::LANGUAGE_LOADER, "undo-make_transparent"));
-        let layer_idx = self.current_layer;
+        let layer_idx = self.get_current_layer()?;
         if let Some(layer) = self.get_cur_layer_mut() {
             let area = crate::Rectangle {
                 start: Position::new(0, 0),
